@@ -16,6 +16,7 @@ import (
 	"encoding/json"
 	"fmt"
 	"math/rand"
+	"net"
 	"os"
 	"os/signal"
 	"path/filepath"
@@ -27,6 +28,7 @@ import (
 	"testing"
 	"time"
 
+	"github.com/bluenviron/mediamtx/internal/auth"
 	"github.com/bluenviron/mediamtx/internal/conf"
 	"github.com/bluenviron/mediamtx/internal/conf/jsonwrapper"
 	"github.com/bluenviron/mediamtx/internal/externalcmd"
@@ -89,7 +91,10 @@ var w6Params = []w6Param{
 	{"authInternalUsers", []string{
 		`[{"user":"any","pass":"","ips":[],"permissions":[{"action":"publish","path":""},{"action":"read","path":""},{"action":"playback","path":""},{"action":"api","path":""},{"action":"metrics","path":""},{"action":"pprof","path":""}]}]`,
 		`[{"user":"u1","pass":"p1","ips":[],"permissions":[{"action":"publish","path":""},{"action":"read","path":""}]},{"user":"any","pass":"","ips":["127.0.0.1/32"],"permissions":[{"action":"api","path":""}]}]`,
-		`[{"user":"u2","pass":"p2","ips":[],"permissions":[{"action":"read","path":"p1"}]}]`}},
+		`[{"user":"u2","pass":"p2","ips":[],"permissions":[{"action":"read","path":"p1"}]}]`,
+		// a user with a hashed password (sha256 of "hp1", then of "hp2")
+		`[{"user":"hu","pass":"sha256:74TxjzKT+Cgo7Ym4Y9DG6eD8wvFzidQ1PNqjXlhaXEU=","ips":[],"permissions":[{"action":"publish","path":""},{"action":"read","path":""},{"action":"api","path":""}]}]`,
+		`[{"user":"hu","pass":"sha256:/Tf+0Ci37sZw++iyYcmkmplFJ5u7csIo9rtbpXCvKrY=","ips":[],"permissions":[{"action":"publish","path":""},{"action":"read","path":""},{"action":"api","path":""}]}]`}},
 	{"authHTTPAddress", []string{`"http://auth.local/a"`, `"http://auth.local/b"`}},
 	{"authHTTPFingerprint", []string{`""`, `"33949e05fffb5ff3e8aa16f8213a6251b4d9363804ba53233c4da9a46d6f2739"`}},
 	{"authHTTPExclude", []string{`[{"action":"api","path":""},{"action":"metrics","path":""},{"action":"pprof","path":""}]`, `[{"action":"api","path":""}]`, `[]`}},
@@ -443,6 +448,8 @@ type w6SlotState struct {
 type w6Snapshot struct {
 	conf  *conf.Conf
 	slots map[string]*w6SlotState
+	// what the authentication manager answers to a fixed set of questions
+	authAnswers string
 }
 
 var w6PlanCache *w6Plan
@@ -550,9 +557,42 @@ func w6Fresh(p *Core, plan *w6Plan, c *conf.Conf, universe *int) (*w6Snapshot, e
 	var sn *w6Snapshot
 	if err == nil {
 		sn = w6Snap(f, plan, nil)
+		sn.authAnswers = w6AuthProbe(f)
 	}
 	f.closeResources(nil)
 	return sn, err
+}
+
+// w6AuthProbe asks an authentication manager (internal method only: the others would go to
+// the network) a fixed set of questions and returns its answers as text. Arguments and
+// reloaded fields can be equal while the behaviour is not (a cache that survives an in-place
+// reload of the user list): the running manager must answer like one created from nothing.
+func w6AuthProbe(core *Core) string {
+	v := w6CoreField(core, "authManager")
+	if !v.IsValid() || v.IsNil() {
+		return "absent"
+	}
+	m := core.authManager
+	if m.Method != conf.AuthMethodInternal {
+		return fmt.Sprintf("method %v", m.Method)
+	}
+	var sb strings.Builder
+	for _, c := range [][2]string{{"", ""}, {"u1", "p1"}, {"u1", "p2"}, {"u2", "p2"}, {"hu", "hp1"}, {"hu", "hp2"}, {"hu", "x"}} {
+		for _, q := range []struct {
+			act  conf.AuthAction
+			path string
+		}{{conf.AuthActionPublish, "p1"}, {conf.AuthActionRead, "p1"}, {conf.AuthActionRead, "p2"}, {conf.AuthActionAPI, ""}} {
+			_, err := m.Authenticate(&auth.Request{Action: q.act, Path: q.path, Protocol: auth.ProtocolRTMP,
+				Credentials: &auth.Credentials{User: c[0], Pass: c[1]}, IP: net.ParseIP("192.168.3.3")})
+			if err == nil {
+				sb.WriteString("1")
+			} else {
+				sb.WriteString("0")
+			}
+		}
+		sb.WriteString(" ")
+	}
+	return sb.String()
 }
 
 func w6Short(s string) string {
@@ -729,6 +769,14 @@ func (w *w6World) Run(t *testing.T, sc *simrt.Scenario, cfg simrt.Config) simrt.
 						return false
 					}
 				}
+			}
+			// (A, behaviour) the authentication manager takes new users in place: its answers
+			// must be those of a manager created from nothing on the same configuration
+			cur.authAnswers = w6AuthProbe(p)
+			if cur.authAnswers != fresh.authAnswers {
+				simrt.Violate("C13", "stale-behaviour", "%s: the running authentication manager answers %q to the probe requests (7 credentials x publish p1, read p1, read p2, api), a manager started on the same configuration answers %q",
+					where, cur.authAnswers, fresh.authAnswers)
+				return false
 			}
 			// (A, paths) the path manager applies path parameters in place: every path a fresh start
 			// creates is live, and every live path runs with the entry that resolves its name now
